@@ -275,7 +275,7 @@ def streams_phase(ctx, part):
                 last = json.loads(lines[-1]) if lines else None
             except Exception:
                 pass
-            if last is not None and last.get("ev") == "loading" and ctx.pid == "C08":
+            if last is not None and last.get("ev") == "loading" and last.get("reader") != "cut" and ctx.pid == "C08":
                 why = "out of memory" if "out of memory" in err else ("panic" if "panic" in err else "exit %d" % rc)
                 ctx.finding("RtCrash@stream:shape=%s" % last["shape"],
                             "loading the index's own snapshot (%d bytes, %d items, metadata shape %s, header=%d, reader=%s, target=%s) killed the process: %s"
@@ -292,6 +292,11 @@ def streams_phase(ctx, part):
             continue
         # report per (check, metadata shape, header) - the shortest description of what fails
         evs = vlib.read_ndjson(trace)
+        dmg = [e for e in evs if e["ev"] == "damaged"]
+        if dmg:     # recorded, not judged: loads of truncated output are outside the property as stated
+            ctx.cov.setdefault("truncated_output_loads", {})["%s/%s" % (m, a)] = {
+                "loads": len(dmg), "max_alloc_bytes": max(e["alloc"] for e in dmg),
+                "outcomes": {r: sum(1 for e in dmg if e["res"] == r) for r in sorted(set(e["res"] for e in dmg))}}
         seen = {}
         for v in viols:
             e = evs[v[0]]
